@@ -29,6 +29,7 @@ ASSUMPTIONS = [
     "the data matrix handed to the constructor is a private copy (inplace=True centres its argument; not part of the property)",
     "integer settings >= n_components are expected to activate all components (setter/trim docstrings); fractions select the smallest count reaching the fraction",
     "reference: numpy SVD of the centred (or raw) matrix, eigenvalue k = sigma_k^2/(n-1)",
+    "orthonormality and projection-identity tolerances are 1e-9 (x data magnitude) times max(1, spread/1e5), spread = lambda_max/lambda_min <= 1e6 by construction (measured Gram-path error <= 3e-16*spread)",
     "PCAVectorModel.project_out returns a (1, d) array; it is flattened before comparison (shape is not part of the property)",
 ]
 
@@ -264,10 +265,12 @@ def snap_equal(a, b):
 # shared oracles
 
 
-def check_queries(ctx, ad, x, case, prefix, k_active, ref_mean, full):
+def check_queries(ctx, ad, x, case, prefix, k_active, ref_mean, full, cf=1.0):
     """Item 4 on the active view: project/instance/reconstruct/project_out identities."""
     d = x.shape[1]
-    sc = max(1.0, float(np.abs(x).max()), 10.0)
+    # cf: conditioning factor max(1, spread/1e5) - Gram-path components of the smallest eigenvalue are
+    # orthonormal only to ~3e-16 * lambda_max/lambda_min (measured), and every identity below inherits that
+    sc = max(1.0, float(np.abs(x).max()), 10.0) * cf
     c = np.asarray(ad.m.components, dtype=float)
     w = np.asarray(case["w"][:k_active], dtype=float)
     probe = np.asarray(case["probe"], dtype=float)
@@ -457,6 +460,9 @@ def c_identities(case, ctx):
     ctx.nontrivial(r >= 2)
     ref_mean, ref_eigs, ref_vt = rp.ref_pca(x, centre)
     sc = max(1.0, float(np.abs(x).max()))
+    kappa = float(ref_eigs[0] / ref_eigs[r - 1])
+    cf = max(1.0, kappa / 1e5)
+    ctx.event("spread<=1e2" if kappa <= 1e2 else ("spread<=1e4" if kappa <= 1e4 else "spread<=1e6"))
 
     ad = Adapter(case, x)
     m = ad.m
@@ -467,7 +473,7 @@ def c_identities(case, ctx):
     if c.ndim == 2 and c.shape[1] == d:
         g = c.dot(c.T)
         ctx.expect(
-            close(g, np.eye(c.shape[0]), atol=1e-9),
+            close(g, np.eye(c.shape[0]), atol=1e-9 * cf),
             "identities.orthonormal.%s" % case["path"],
             lambda: describe(g, np.eye(c.shape[0])),
         )
@@ -514,7 +520,7 @@ def c_identities(case, ctx):
 
     # 4. projection identities with all components kept
     if m.n_active_components == r and c.shape == (r, d):
-        check_queries(ctx, ad, x, case, "identities", r, ref_mean, full=True)
+        check_queries(ctx, ad, x, case, "identities", r, ref_mean, full=True, cf=cf)
         if ad.tmpl is not None:
             # object-level API agrees with the *_vector API
             probe = np.asarray(case["probe"], dtype=float)
@@ -644,7 +650,7 @@ def c_history(case, ctx):
     na = int(m.n_active_components)
     if na == a and np.asarray(m.components).shape == (a, d):
         check_against_reference(ctx, m, a, r, ref_eigs, ref_vt, "history.final")
-        check_queries(ctx, ad, x, case, "history.final", a, ref_mean, full=(a == r))
+        check_queries(ctx, ad, x, case, "history.final", a, ref_mean, full=(a == r), cf=max(1.0, float(ref_eigs[0] / ref_eigs[r - 1]) / 1e5))
 
 
 # ----------------------------------------------------------------------------------------------
@@ -722,7 +728,7 @@ def c_trim(case, ctx):
             ctx.expect(close(ga, gv, rtol=1e-12, atol=0), "trim.query_differs.%s" % name, lambda: describe(ga, gv))
         ia, iv = built.instance(w), view.instance(w)
         ctx.expect(close(ia, iv, rtol=1e-12, atol=0), "trim.query_differs.instance", lambda: describe(ia, iv))
-        check_queries(ctx, built, x, case, "trim.built_with_k", ke, ref_mean, full=(ke == r))
+        check_queries(ctx, built, x, case, "trim.built_with_k", ke, ref_mean, full=(ke == r), cf=max(1.0, float(ref_eigs[0] / ref_eigs[r - 1]) / 1e5))
 
 
 CLAUSES = [
